@@ -14,7 +14,7 @@ ENTRIES = ["copy_randombytes17", "copy_randombytes37", "randombytes_buf21", "sta
            "randombytes_buf", "copy_randombytes", "secretbox_keygen", "secretbox_keygen_inplace", "box_keypair", "box_keypair_inplace",
            "kx_keypair", "kdf_keygen", "auth_keygen", "onetimeauth_keygen", "shorthash_keygen", "generichash_keygen", "sign_keypair",
            "sign_keypair_inplace", "secretstream_keygen", "secretstream_init_push", "box_seal", "pwhash_str",
-           "stack_gen32", "stack_gen24", "array_gen32", "vec_gen32", "vec_gen8", "stack_gen8", "stack_gen5", "array_gen7", "keypair_gen", "keypair_gen_with_defaults",
+           "stack_gen32", "stack_gen24", "array_gen32", "vec_gen32", "vec_gen8", "stack_gen8", "stack_gen5", "array_gen7", "array_gen257", "array_gen1000", "stack_gen300", "vec_gen513", "keypair_gen", "keypair_gen_with_defaults",
            "signing_keypair_gen", "signing_keypair_gen_with_defaults", "kdf_gen", "kdf_gen_with_defaults", "dryocbox_seal",
            "dryocstream_init_push", "pwhash_hash", "secretbox_nonce_gen", "secretbox_key_gen", "box_nonce_gen", "auth_key_gen",
            "onetimeauth_key_gen", "generichash_key_gen", "stream_key_gen", "kx_keypair_gen"]
@@ -51,11 +51,12 @@ def run(tier, seed):
         cnt = max(40, n // SLOW.get(e, 1))
         if True:   # values under 16 bytes (SHORT) are judged by the constant-byte-position test only; their data flow is checked by the hooked runs
             cases.append(Case("rand %s %d" % (e, cnt), cls="os-rng/" + e, meta={"entry": e}))
+        big = int(re.sub(r"\D", "", e) or 0) > 64      # the hooked source must hold at least as many bytes as the entry point draws
         for k in range(3 if tier == "quick" else 20):
-            cases.append(Case("randh %s %s" % (e, hx(rbytes(rng, 64))), cls="hooked/" + e))
+            cases.append(Case("randh %s %s" % (e, hx(rbytes(rng, 1024 if big else 64))), cls="hooked/" + e))
         # degenerate sources expose constants hidden behind the draw: all-zero and all-ff entropy
-        cases.append(Case("randh %s %s" % (e, hx(b"\x00" * 96)), cls="hooked/" + e))
-        cases.append(Case("randh %s %s" % (e, hx(bytes(range(1, 97)))), cls="hooked/" + e))
+        cases.append(Case("randh %s %s" % (e, hx(b"\x00" * (1024 if big else 96))), cls="hooked/" + e))
+        cases.append(Case("randh %s %s" % (e, hx(bytes(range(1, 97)) * (11 if big else 1))), cls="hooked/" + e))
     # the generators that only exist with the nightly feature (heap / locked containers): OS-generator statistics
     ncases = [Case("rand %s %d" % (e, max(40, n // 4)), cls="os-rng/" + e, meta={"entry": e, "nightly": True}) for e in NIGHTLY_ENTRIES]
     lines = assign_ids(cases + ncases)
